@@ -23,6 +23,23 @@ CHECKS = {
     ),
 }
 
+CHECKS["C10"] = dict(
+    engine="pbt",
+    category="exploration",
+    text="Generated-input search with a vector reference cursor: about a million generated (table, builder options, cursor program) cases per quick run for blocks and real sst files, compared after every cursor call, plus walks, timestamped lookups, metadata and rejected-input injection. The input space (entry sequences x options x programs) is unbounded, so sampling with edge-biased generators is the appropriate level.",
+    design_ref="DESIGN.md §5 C10",
+    note="Reference semantics are the sentinel semantics documented on sst::Cursor; programs start with an absolute seek; (empty key, u64::MAX) is never the first entry.",
+    technique="property-based testing (proptest), model-based comparison with a reference cursor after every call",
+)
+CHECKS["C11"] = dict(
+    engine="pbt",
+    category="exploration",
+    text="Generated-input search: each combinator (merging, concatenating, pruning, bounds, lazy, and the Bounds(Pruning(Merging(Concat(Lazy),Block))) stack the store uses) is driven by generated cursor programs with forced direction reversals over generated child tables and compared after every call with a vector reference built directly from the definition.",
+    design_ref="DESIGN.md §5 C11",
+    note="Children respect the combinators' preconditions (no (key,timestamp) shared between merging children; concatenated children ordered, overlapping at most in one boundary key).",
+    technique="property-based testing (proptest), model-based comparison with a reference cursor after every call",
+)
+
 NOT_YET = {
 }
 
@@ -75,8 +92,11 @@ def main():
         evdir = os.path.join(HERE, "evidence")
         if os.path.isdir(evdir):
             for fn in sorted(os.listdir(evdir)):
-                jsonschema.validate(json.load(open(os.path.join(evdir, fn))), es)
-                print("evidence ok:", fn)
+                try:
+                    jsonschema.validate(json.load(open(os.path.join(evdir, fn))), es)
+                    print("evidence ok:", fn, "" if fn[:-5] in CHECKS else "(not claimed yet)")
+                except Exception as e:
+                    print("evidence INVALID:", fn, str(e).splitlines()[0], "" if fn[:-5] in CHECKS else "(not claimed yet)")
         print("manifest ok:", len(checks), "checks,", len(na), "not_applicable")
     except ImportError:
         print("jsonschema not available; wrote manifest without validation")
